@@ -13,8 +13,8 @@
        Conformance is the translator's soundness: assumed, exercised by the -race runs.
    (3) C10_current_discipline: the check holds of the facts extracted from /repo's current
        source (Gen/Skeleton.v, regenerated on every run) and the policy Model/Policy.v,
-       minus exactly the access sites named in Policy.exempt (known_exceptions: defect
-       candidates reported by the check; reviewed_sites: argued in Policy.v).
+       minus exactly the access sites named in Policy.exempt (known_exceptions: recorded
+       defects, reported by the check, currently none; reviewed_sites: argued in Policy.v).
    (4) C10_exported_closed: no exported method of the listed types escapes the analysis. *)
 From Coq Require Import List String Bool.
 From KV Require Import Model.DRF Model.Policy Gen.Skeleton Proofs.DRFSound Proofs.DRFBridge Proofs.DRFPublish Proofs.DRFCurrent.
@@ -76,14 +76,6 @@ Theorem C10_handoff_sound : forall tr x ts t1 p,
 Proof. exact handoff_sound. Qed.
 Print Assumptions C10_handoff_sound.
 
-(* The property at full strength is REFUTED on the current tree at the level of the
-   discipline: with the exempt sites put back the check fails (Batch.Err, Batch.ReadMessage
-   on Conn.offset, Reader.start's goroutine on Reader.version, Reader.unsubscribe); the
-   first three are confirmed by race-detector reports (harness/cmd/c10). *)
-Theorem C10_unexempted_discipline_refuted : discipline_ok accesses kafka = false.
-Proof. exact current_unexempted_fails. Qed.
-Print Assumptions C10_unexempted_discipline_refuted.
-
 (* The full statement, of which the theorems above prove the part for the checked kinds:
    every location of every listed type is race free in every trace of every client program.
    Not proved: for WriteOnceBeforePublish and HandedOff only the phase arguments
@@ -102,6 +94,14 @@ Example C10_nonvacuous_handoff : handed_off tr_handoff 7 0 1 2.
 Proof. exact tr_handoff_ok. Qed.
 Example C10_race_definable : race_on tr_racy 5.
 Proof. exact tr_racy_race. Qed.
+(* the shape of the F7 races fixed in /repo (a read of a mutex-guarded field with an empty
+   lockset, e.g. the former Batch.Err) is rejected by the CURRENT policy *)
+Example C10_unlocked_read_rejected :
+  discipline_ok (mkAcc "Batch" "err" KRead "Batch.Err" [] false "batch.go:128" :: nil) kafka = false /\
+  discipline_ok (mkAcc "Conn" "offset" KRead "Batch.ReadMessage" [("Batch.mutex", MW)] false "batch.go:212" :: nil) kafka = false /\
+  discipline_ok (mkAcc "Reader" "version" KRead "Reader.start$1" [] false "reader.go:1211" :: nil) kafka = false /\
+  discipline_ok (mkAcc "Batch" "err" KRead "Batch.Err" [("Batch.mutex", MW)] false "batch.go:128" :: nil) kafka = true.
+Proof. exact current_policy_rejects_unlocked. Qed.
 Example C10_discipline_discriminates :
   discipline_ok demo_good demo_pol = true /\
   discipline_ok (mkAcc "T" "a" KRead "T.Peek" [] false "t.go:6" :: demo_good) demo_pol = false.
